@@ -772,11 +772,14 @@ Section ENGINE.
     | KLra LAbsent | KLra LOther | KUnwrap UOther | KAggOp AUnsupported | KAggOp AOther => false
     | _ => true
     end.
+  (* the aggregation functions the reference defines: the sixteen above and absent_over_time *)
+  Definition agg_covered (k : agg_kind) : bool :=
+    agg_specified k || match k with KLra LAbsent => true | _ => false end.
   Definition stage_in_domain (c : ctx) (l : list entry) (s : stage) : bool :=
     match s with
     | SAgg k dur =>
       (0 <? dur) && (c_from c <? c_to c) && (Z.rem (c_to c - c_from c) dur =? 0) &&
-      (agg_specified k || match k with KLra LAbsent => true | _ => false end) &&
+      agg_covered k &&
       forallb (fun e => (c_from c <=? e_ts e) && (e_ts e <? c_to c)) l
     | _ => true
     end.
